@@ -25,8 +25,10 @@ MODULE = "mimo/Mimo.tla"
 INVARIANTS = ["RoundTrip", "FilterFresh", "MmseBound", "ScalesCancel", "EnergyPreserved", "ChannelUses", "AlamoutiOrthogonal", "ZfDefining",
               "MmseDefining", "MmseTendsToZf", "MrtCophased", "SinrFirstPrinciples", "ZfSinrClosedForm",
               "BadLengthRaises"]
-ACTIONS = ["SetChannel", "Encode", "Transmit", "SetNoiseVar", "Decode", "Filters", "EncodeBadLength"]
-DEVS = ["SvdNeedsSquare", "SinrCoherentInterference", "NvNoneKeepsFilter"]
+ACTIONS = ["SetChannel", "Encode", "Transmit", "SetNoiseVar", "Decode", "Query", "Rejected", "Filters", "EncodeBadLength"]
+PROPERTIES = ["QueryIsPure", "RejectedChangesNothing"]       # frame conditions (action properties)
+DEVS = ["SvdNeedsSquare", "SinrCoherentInterference", "NvNoneKeepsFilter", "QuerySetsNoiseVar", "RejectedKeepsEffect"]
+QUERY_Q = 2
 VANISH = [2, 4, 6, 8, 10, 12, 14, 16]      # noise variances 10^-e along which MMSE -> ZF is followed
 ALL = ["blast", "mrc", "mrt", "svd", "gmd", "alamouti"]
 
@@ -34,7 +36,8 @@ ALL = ["blast", "mrc", "mrt", "svd", "gmd", "alamouti"]
 # with q <= 16 stays below 2^31 (bounds in notes/C04.md); ALPHA_MED (|h|^2 <= 5) is used for Nt <= 2.
 ALPHA = [[0, 0], [1, 0], [-1, 0], [0, 1], [0, -1], [1, 1], [1, -1], [-1, 1]]
 ALPHA_MED = [[0, 0], [2, 0], [-1, 0], [0, 1], [0, -2], [1, 2], [2, -1], [-1, 1], [1, 0], [-2, 1]]
-PYTH = [[3, 4], [-4, 3], [2, 0], [0, -1], [5, -12], [-3, -4], [0, 2], [4, -3]]
+# exact zeros (a blocked path) are part of the MRT alphabet: the channel only has to be non-null
+PYTH = [[3, 4], [-4, 3], [2, 0], [0, -1], [5, -12], [-3, -4], [0, 2], [4, -3], [0, 0], [0, 0]]
 PYTH_BIG = PYTH + [[8, 15], [-7, 24], [12, -5], [0, 3], [-6, 8]]
 SYMS = [[1, 0], [-1, 0], [0, 1], [0, -1], [1, 1]]
 TOL = 1e-9
@@ -55,8 +58,8 @@ def build(schemes, shapes, klo, khi, seed, ndata, qs, decqs, alpha=ALPHA, pyth=P
             "Qs": tlc.tla(qs), "DecQs": tlc.tla([sorted(d) for d in decqs]), "Vanish": tlc.tla(VANISH),
             "Dev": tlc.tla({d: (d in dev) for d in DEVS})}
     cfg = tlc.cfg_text(constants={"KLo": str(klo), "KHi": str(khi), "Seed": str(seed % 65536), "NData": str(ndata),
-                                  "HistEvery": str(hist_every), "HistDeep": str(hist_deep)},
-                       defs=defs, invariants=INVARIANTS, action_constraints=["Emit"] if emit else [])
+                                  "HistEvery": str(hist_every), "HistDeep": str(hist_deep), "QueryQ": str(QUERY_Q)},
+                       defs=defs, invariants=INVARIANTS, properties=PROPERTIES, action_constraints=["Emit"] if emit else [])
     return cfg, defs
 
 
@@ -176,7 +179,7 @@ class Bench:
         out["hist"] = hist
         return o, H
 
-    def link_obj(self, rec, out):
+    def link_obj(self, rec, out, g=None):
         """object for a link case, in the state of a new object (noise setting = default): built by the
         constructor, by set_channel_matrix on an empty object, or by set_channel_matrix on an object that has
         already decoded over the previous channel of that scheme (a filter kept from then would be stale)"""
@@ -190,11 +193,21 @@ class Bench:
             self.before[sch] = last
         prev = self.before.get(sch)
         out["hist"] = None
+        if g is not None:
+            arg = g.variant(arg)
+        if prev is not None and rec["k"] % 2 == 0:      # a second live object of the same class
+            parg, pH = chan_arg(prev)
+            out["bystander"] = (cls[sch](parg), pH.shape[0])
         if mode == 0 or (mode == 2 and prev is None):
             o = cls[sch](arg)
         elif mode == 1:
             o = cls[sch]()
-            o.set_channel_matrix(arg)
+            if g is not None:
+                okc, e = g.call("set_channel_matrix", o.set_channel_matrix, arg)
+                if not okc:
+                    raise e
+            else:
+                o.set_channel_matrix(arg)
         else:
             parg, pH = chan_arg(prev)
             o = cls[sch](parg)
@@ -251,24 +264,86 @@ def call(res, what, f, *a):
         return False, ex
 
 
+class Guard:
+    """General call discipline (notes/CALL_DISCIPLINE.md) applied to EVERY public call of a replayed history:
+    ArgumentsUnchanged   every ndarray argument is bit-identical after the call (arguments are handed over in
+                         rotating memory layouts: C, Fortran, strided view, read-only; real integer-valued
+                         arrays also as int64 / float64);
+    EarlierResultsUnchanged  every array returned earlier by this object is re-compared after every later call."""
+
+    def __init__(self, res, tag, salt):
+        self.res, self.tag, self.n, self.held = res, tag, salt, []
+
+    def variant(self, arr):
+        arr = np.asarray(arr)
+        self.n += 1
+        sel = self.n % 4
+        if arr.dtype.kind == "c" and not np.any(arr.imag) and self.n % 3:
+            re = arr.real
+            arr = re.astype(np.int64) if (self.n % 3 == 1 and np.array_equal(re, np.round(re))) else re.copy()
+        if sel == 1:
+            v = np.asfortranarray(arr)
+        elif sel == 2 and arr.ndim >= 1:
+            wide = np.zeros(arr.shape[:-1] + (2 * arr.shape[-1],), dtype=arr.dtype)
+            wide[..., ::2] = arr
+            v = wide[..., ::2]
+        else:
+            v = np.array(arr, copy=True)
+        if sel == 3:
+            v.setflags(write=False)
+        return v
+
+    def call(self, label, f, *args):
+        snaps = [(x, x.copy()) for x in args if isinstance(x, np.ndarray)]
+        okc, r = call(self.res, label, f, *args)
+        for x, c in snaps:
+            if not (x.shape == c.shape and x.dtype == c.dtype and np.array_equal(x, c)):
+                self.res.bad(f"{self.tag}: ArgumentsUnchanged fails: {label} modified its argument")
+        self.verify(label)
+        if okc and isinstance(r, np.ndarray):
+            self.held.append((label, r, r.copy()))
+        return okc, r
+
+    def verify(self, after):
+        for label, obj, c in self.held:
+            if not (obj.shape == c.shape and np.array_equal(obj, c, equal_nan=True)):
+                self.res.bad(f"{self.tag}: EarlierResultsUnchanged fails: the result of {label} changed during {after}")
+                self.held = [h for h in self.held if h[1] is not obj]
+                return
+
+
+def rejected_calls(sch, o, nr, nt, x):
+    """the calls the scheme documents as refused (ValueError)"""
+    out = []
+    if sch in ("blast", "mrc", "svd", "gmd"):
+        out.append(("set_noise_var(-1)", o.set_noise_var, (-1.0,)))
+    if sch in ("blast", "svd", "gmd") and nt >= 2:
+        out.append((f"encode of {len(x) - 1} symbols", o.encode, (x[:-1].copy(),)))
+    if sch == "alamouti":
+        out.append((f"set_channel_matrix({nr}x3)", o.set_channel_matrix, ((np.arange(nr * 3).reshape(nr, 3) + 1j).astype(complex),)))
+    if sch == "mrt":
+        out.append((f"set_channel_matrix(2x{nt})", o.set_channel_matrix, ((np.arange(2 * nt).reshape(2, nt) + 2j).astype(complex),)))
+    return out
+
+
 def eval_link(rec, bench, res):
-    """one channel, one data block, one receiver history on ONE object"""
+    """one channel, one data block, one history of calls on ONE object"""
     sch, nr, nt = rec["sch"], rec["nr"], rec["nt"]
     steps = rec["steps"]
     tag = f"{sch} {nr}x{nt} k={rec['k']} history={[st['a'] for st in steps]}"
-    okc, r = call(res, "configure", bench.link_obj, rec, res.extra)
+    g = Guard(res, tag, rec["k"] + len(steps))
+    okc, r = call(res, "configure", bench.link_obj, rec, res.extra, g)
     if not okc:
         return res.bad(f"{tag}: constructing / configuring the object raised {res.extra['exception']}")
     o, H = r
+    bystander = res.extra.pop("bystander", None)
     x = ivec(rec["x"])
-    x_in = x.copy()
     res.check(o.getNumberOfLayers() == rec["layers"] and o.Nt == nt and o.Nr == nr,
               f"{tag}: layers/Nt/Nr = {o.getNumberOfLayers()}/{o.Nt}/{o.Nr}, expected {rec['layers']}/{nt}/{nr}")
-    okc, enc = call(res, "encode", o.encode, x_in)
+    okc, enc = g.call("encode", o.encode, g.variant(x))
     if not okc:
         return res.bad(f"{tag}: encode raised {res.extra['exception']}")
     enc = np.asarray(enc)
-    res.check(np.array_equal(x_in, x), f"{tag}: encode modified its argument")
     nsym = len(x)
     T = nsym // rec["layers"]
     e_exp = rec["energy"][0] / rec["energy"][1]
@@ -280,19 +355,42 @@ def eval_link(rec, bench, res):
     rel = rec["tx"]["kind"] == "rel"
     if not rel:
         res.check(close(enc, signal(rec["tx"])), f"{tag}: encode(x) differs from the exact transmitted signal")
-    rx_real = H.dot(enc)
-    want = {d["q"]: np.array([gc(g) for g in d["out"]["v"]], dtype=complex) for d in rec["decs"]}
+    enc0 = enc.copy()
+    want = {d["q"]: np.array([gc(w) for w in d["out"]["v"]], dtype=complex) for d in rec["decs"]}
     first = True
     for i, st in enumerate(steps):
         a = st["a"]
+        if a == -3:          # queries: answers only (QueryIsPure is judged by the decodes that follow)
+            res.check(o.getNumberOfLayers() == rec["layers"] and o.Nt == nt and o.Nr == nr, f"{tag}: step {i}: layers/Nt/Nr changed")
+            for name in ("calc_linear_SINRs", "calc_SINRs"):
+                okc, e = g.call(name, getattr(o, name), 1.0 / rec["qq"])
+                if not okc:
+                    return res.bad(f"{tag}: step {i}: query {name}(1/{rec['qq']}) raised {res.extra['exception']}")
+            continue
+        if a == -6:          # refused calls (RejectedChangesNothing is judged by the decodes that follow)
+            for name, f, args in rejected_calls(sch, o, nr, nt, x):
+                okc, e = g.call(name, f, *args)
+                if okc or not isinstance(e, ValueError):
+                    return res.bad(f"{tag}: step {i}: {name} was not refused with ValueError "
+                                   f"({'returned' if okc else res.extra['exception']})")
+            continue
         if a != -2:          # set_noise_var(None | 0.0 | 1/a)
             arg = None if a == -1 else (0.0 if a == 0 else 1.0 / a)
-            okc, e = call(res, "set_noise_var", o.set_noise_var, arg)
+            okc, e = g.call("set_noise_var", o.set_noise_var, arg)
             if not okc:
                 return res.bad(f"{tag}: step {i}: set_noise_var({arg}) raised {res.extra['exception']}")
             continue
+        # decode: the full probe  encode -> channel -> decode  on the same object
         q = st["q"]
-        okc, dec = call(res, "decode", o.decode, rx_real.copy())
+        if bystander is not None:      # another object of the class is used in between (class-level state)
+            call(res, "bystander", bystander[0].decode, np.zeros((bystander[1], 2), dtype=complex))
+        okc, enc2 = g.call("encode", o.encode, g.variant(x))
+        if not okc:
+            return res.bad(f"{tag}: step {i}: encode raised {res.extra['exception']}")
+        if not res.check(np.asarray(enc2).shape == enc0.shape and close(np.asarray(enc2), enc0, 1e-12),
+                         f"{tag}: step {i}: encode(x) is no longer what it was at the start of the history"):
+            return
+        okc, dec = g.call("decode", o.decode, g.variant(H.dot(np.asarray(enc2))))
         if not okc:
             fid = "SvdNeedsSquare" if (sch == "svd" and nr > nt and isinstance(dec, ValueError)) else None
             return res.bad(f"{tag}: step {i}: decode raised {res.extra['exception']}", fid)
@@ -308,11 +406,12 @@ def eval_link(rec, bench, res):
             if not res.check(close(dec, w), f"{tag}: step {i}: decode(H encode(x)) differs from {what}"):
                 return
             if first:
-                okc, dec2 = call(res, "decode", o.decode, signal(rec["rx"]))
+                okc, dec2 = g.call("decode", o.decode, g.variant(signal(rec["rx"])))
                 if not okc:
                     return res.bad(f"{tag}: decode of the exact received signal raised {res.extra['exception']}")
                 res.check(close(np.asarray(dec2), w), f"{tag}: decode(exact received signal) differs from {what}")
         first = False
+    g.verify("the history")
 
 
 def _mimo_static(mimo, name, owner="MimoBase"):
@@ -530,7 +629,7 @@ def plan(ctx):
         step = nch // parts
         for p in range(parts):
             jobs.append((f"all/k{p}", dict(schemes=ALL, shapes=SHAPES_Q + BIG_Q, klo=p * step + 1, khi=(p + 1) * step, seed=seed,
-                                           ndata=ndata, qs=qs, decqs=dq, hist_every=12, hist_deep=4)))
+                                           ndata=ndata, qs=qs, decqs=dq, hist_every=24, hist_deep=4)))
     else:
         nch, parts, ndata = 700, 14, 3
         qs = [[1, 4, 16, 64], [1, 4, 16, 64], [1, 4, 16], [1, 4, 16, 64]]
@@ -538,7 +637,7 @@ def plan(ctx):
         step = nch // parts
         for p in range(parts):
             jobs.append((f"all/k{p}", dict(schemes=ALL, shapes=SHAPES_T + BIG_T, klo=p * step + 1, khi=(p + 1) * step, seed=seed,
-                                           ndata=ndata, qs=qs, decqs=dq, hist_every=35, hist_deep=4)))
+                                           ndata=ndata, qs=qs, decqs=dq, hist_every=70, hist_deep=4)))
         # larger entries (|h|^2 <= 5) where the arithmetic stays inside 32 bits: Nt <= 2
         sh2 = [s for s in SHAPES_T if s[1] <= 2]
         qs2 = [[1, 4, 16]] * 4
@@ -559,7 +658,10 @@ def model_stage(ctx):
     want = {"SvdNeedsSquare": (("RoundTrip",), ["svd"], [(2, 2), (3, 2)]),
             "SinrCoherentInterference": (("SinrFirstPrinciples",), ["blast"], [(2, 2), (3, 3)]),
             # needs the history  set_noise_var(1/q), decode, set_noise_var(None), decode  on one object
-            "NvNoneKeepsFilter": (("RoundTrip", "FilterFresh"), ["blast", "mrc"], [(2, 1), (2, 2)])}
+            "NvNoneKeepsFilter": (("RoundTrip", "FilterFresh"), ["blast", "mrc"], [(2, 1), (2, 2)]),
+            # a query / a refused call inside a history must leave the later decodes alone
+            "QuerySetsNoiseVar": (("QueryIsPure", "RoundTrip", "FilterFresh"), ["blast", "mrc"], [(2, 1), (2, 2)]),
+            "RejectedKeepsEffect": (("RejectedChangesNothing", "RoundTrip"), ["alamouti", "mrt"], [(1, 2), (2, 2)])}
     for dev, (inv, schemes, shapes) in want.items():
         cfg, defs = build(schemes, shapes, 1, 3, ctx.seed, 1, qs, [{4}] * 4, dev=[dev], emit=False, hist_every=1, hist_deep=4)
         r = tlc_run(cfg, defs)
